@@ -193,6 +193,10 @@ class _FormulaMeta(ABCMeta):
                 _context=context,
             )._simplify()
         if isinstance(spec, (list, set, OrderedSet)):
+            if isinstance(spec, set):
+                # (sets have no order of their own: do not let the interpreter's
+                # hash seed decide the order of the terms)
+                spec = sorted(spec, key=str)
             terms = [
                 term
                 for value in spec
